@@ -197,6 +197,22 @@ class Repo:
                 # the spliced bodies introduce new aliases / named conditions: normalise again
                 node, _ch = desugar(expanded[fi.fq], self.modules[fi.module].globals_assigned)
                 node, _ch = normalize_function(node, self._sig_resolver(fi))
+                # spliced helper bodies carry the helper's line numbers: give the function synthetic,
+                # monotone positions (document order) for the rules that order statements, and keep
+                # the real line for messages
+                k = [0]
+
+                def renumber(n):
+                    if hasattr(n, 'lineno'):
+                        n.orig_lineno = n.lineno
+                        k[0] += 1
+                        n.lineno = k[0]
+                        n.col_offset = 0
+                    for c in ast.iter_child_nodes(n):
+                        renumber(c)
+                first = node.lineno
+                renumber(node)
+                node.orig_lineno = first
                 fi.node = node
         self.inlined = dict(inl.inlined_sites)
         # absorbed helpers: every remaining reference sits in another absorbed helper
@@ -392,7 +408,8 @@ class Repo:
                         yield f
 
     def where(self, fi, node=None):
-        line = getattr(node, 'lineno', None) or fi.node.lineno
+        line = getattr(node, 'orig_lineno', None) or getattr(node, 'lineno', None) or \
+            getattr(fi.node, 'orig_lineno', None) or fi.node.lineno
         return 'rsome/%s.py:%d' % (fi.module, line)
 
     def digests(self):
